@@ -1,5 +1,5 @@
 """TOK-*: tokenizer sub-parsers (src/tokenizer/tokenize.cpp)."""
-TUS = ['chunk.cpp', 'unc_text.cpp', 'unicode.cpp', 'unc_ctype.cpp', 'option.cpp', '$BUILD/src/options.cpp', '$HARNESS/stdstr.cpp']
+TUS = ['chunk.cpp', 'unc_text.cpp', 'unicode.cpp', 'unc_ctype.cpp', 'option.cpp', '$BUILD/src/option_enum.cpp', '$BUILD/src/options.cpp', '$HARNESS/chartable.cpp', '$HARNESS/stdstr.cpp']
 CUT = r'OptionWarning|regex|_ZNSt7__cxx1112basic_stringIw|wstring|_ZNSt6locale|St5ctypeI|_ZSt9use_facet'
 NOLOGTEXT = ['_Z11encode_utf8iRSt9vp_vectorIhvE']   # UncText re-encodes its whole log text on every append; these obligations never read it
 COMMON = dict(harness='tok.cpp', extra_tus=TUS, havoc_options=True, cut_re=CUT, noop=NOLOGTEXT,
@@ -16,7 +16,7 @@ def n_instances(lo, hi_q, hi_t, extra=None):
             d = dict(N=n, VP_CAP_INT=max(4, n + 1), VP_CAP_U8=max(8, 3 * n + 4))
             d.update(extra or {})
             out.append(dict(name='n%d' % n, bound='all sequences of %d code points, all option values the closure reads, all language sets' % n,
-                            unwind=max(n + 3, 8), unwindset={'strlen|strcmp|strchr|_M_construct|char_traits': 24}, defs=d))
+                            unwind=max(n + 3, 8), unwindset={'strlen|strcmp|strchr|_M_construct|char_traits': 24, r'parse_number\w*\.(4|8)$': 16, 'memcmp|UncText4find|startswith': 24}, defs=d))
         return out
     return f
 
@@ -31,10 +31,14 @@ OBLIGATIONS = [
 ]
 OBLIGATIONS.append(dict(COMMON, id='TOK-STR', entry='vp_tok_str', instances=n_instances(1, 4, 6), extra_tus=TUS + ['punctuators.cpp', 'keywords.cpp', 'language_tools.cpp'],
                         assumptions=COMMON['assumptions'] + ['string_replace_tab_chars=false (premise of C03)']))
+OBLIGATIONS.append(dict(COMMON, id='TOK-NUM', entry='vp_tok_num', instances=n_instances(1, 2, 2), extra_tus=TUS + ['punctuators.cpp', 'keywords.cpp', 'language_tools.cpp']))
+OBLIGATIONS.append(dict(COMMON, id='TOK-CMT', entry='vp_tok_cmt', instances=n_instances(2, 3, 5), extra_tus=TUS + ['punctuators.cpp', 'keywords.cpp', 'language_tools.cpp']))
+import os as _os
+_EXP = bool(_os.environ.get('VP_EXPERIMENTAL'))
 PROPERTIES = {
-    'C03': dict(obligations=['TOK-STR'], not_decided='comments (parse_comment and the comment writers output_comment_*), raw strings / C# / D strings, the literal writer (add_text with is_literal).'),
+    'C03': dict(obligations=['TOK-STR'] + (['TOK-CMT'] if _EXP else []), not_decided='comments (parse_comment and the comment writers output_comment_*), raw strings / C# / D strings, the literal writer (add_text with is_literal).'),
     'C07': dict(obligations=['TOK-IGN'], not_decided='that every later pass skips CT_IGNORED chunks; regex markers; the writer side (OUT-IGN).'),
     'C08': dict(obligations=['TOK-WS', 'TOK-NL', 'TOK-BSNL', 'TOK-IGN']),
-    'C02': dict(obligations=['TOK-WS', 'TOK-NL', 'TOK-BSNL'], not_decided='the ~40 passes between tokenizer and output.'),
+    'C02': dict(obligations=['TOK-WS', 'TOK-NL', 'TOK-BSNL', 'TOK-NUM'], not_decided='the ~40 passes between tokenizer and output.'),
     'C06': dict(obligations=['TOK-WS', 'TOK-NL', 'TOK-BSNL', 'TOK-IGN'], not_decided='parser passes after tokenizing, indent_text, the convergence loops.'),
 }
